@@ -26,6 +26,9 @@ class History:
         from pyworkers.persistent_thread import PersistentThreadWorker
         self.Worker, self.TW, self.PTW = Worker, ThreadWorker, PersistentThreadWorker
         Worker._active_children = []
+        for cls in (ThreadWorker, PersistentThreadWorker):      # every history starts from a fresh registry (also one a subclass may have been given)
+            if '_active_children' in vars(cls):
+                delattr(cls, '_active_children')
         self.objs = []      # (worker, release event or None, persistent?)
 
         class FailingStart(ThreadWorker):
@@ -69,9 +72,12 @@ class History:
         w.restart(timeout=10)
         return True
 
-    def active(self):
+    def active(self, via=0):
+        """via 0: Worker.active_children(); 1/2: the same static method reached through the subclass ThreadWorker / PersistentThreadWorker;
+        3: through the most recently created worker object"""
         ids = {id(w): k for k, (w, _, _) in enumerate(self.objs)}
-        return [ids.get(id(c), -1) for c in self.Worker.active_children()]
+        holder = [self.Worker, self.TW, self.PTW, self.objs[-1][0] if self.objs else self.Worker][via]
+        return [ids.get(id(c), -1) for c in holder.active_children()]
 
     def registry(self):
         ids = {id(w): k for k, (w, _, _) in enumerate(self.objs)}
@@ -109,10 +115,12 @@ def play(ops):
                     coq.append(f'Restart {op[1]}')
             else:
                 alive_before = h.alive_set()
-                out = h.active()
+                via = op[1] if len(op) > 1 else 0
+                out = h.active(via)
                 outs.append(out); coq.append('Active')
-                # the property itself
-                if sorted(out) != alive_before or len(set(out)) != len(out):
+                # the property itself (stated for Worker.active_children(); a call through a subclass or an object is the same function and is
+                # compared with the model only)
+                if via == 0 and (sorted(out) != alive_before or len(set(out)) != len(out)):
                     viol.append(f'active_children() yielded {out}, live workers are {alive_before}')
                 reg = h.registry()
                 if len(reg) > len(alive_before):
@@ -181,14 +189,14 @@ def gen_random(rnd, length):
         elif r < 0.72:
             ops.append(('restart', rnd.randrange(n)))
         else:
-            ops.append(('active',))
+            ops.append(('active',) if rnd.random() < 0.7 else ('active', rnd.randint(1, 3)))
     ops.append(('active',))
     return ops
 
 
 def exhaustive(maxlen):
     alpha = [('create', True, True, True), ('create', True, True, False), ('create', False, True, True), ('create', True, False, False),
-             ('die', 0), ('die', 1), ('restart', 0), ('active',)]
+             ('die', 0), ('die', 1), ('restart', 0), ('active',), ('active', 1)]
     for L in range(1, maxlen + 1):
         for s in itertools.product(alpha, repeat=L):
             if s[-1] != ('active',) or s[0][0] != 'create':
